@@ -82,7 +82,7 @@ def run(ctx):
     from bloqade.shuttle.visualizer import PathVisualizer
     spec = L.default_move_spec()
     table = L.sx_spec_table(spec)
-    g = L.MoveGen(ctx.rng, {"unknown": 0.01, "assert": 0.0})
+    g = L.MoveGen(ctx.rng, {"unknown": 0.01, "assert": 0.0, "devfn_param": 0.5, "alias_subs": 0.2})
     n_prog = 400 if ctx.tier == "thorough" else 60
     lines, rows = [], []
     for _ in range(n_prog):
@@ -93,6 +93,17 @@ def run(ctx):
         except Exception:  # noqa: BLE001
             ctx.count("compile_fail")
             continue
+        # a second, independent executor: the same source specialised at compile time and run by
+        # the plain interpreter (path.Gen evaluated by the `main` implementation)
+        from . import c06 as C06
+        C06.SPEC_SLOT = spec
+        src_spec = L.program_source(fns, main_decorator="move(arch_spec=_C06.SPEC_SLOT)").replace(
+            "from bloqade.shuttle.prelude import tweezer, move\n",
+            "from bloqade.shuttle.prelude import tweezer, move\nfrom harness.props import c06 as _C06\n")
+        try:
+            mod_spec = T.load_source(src_spec, "c16s")
+        except Exception:  # noqa: BLE001
+            mod_spec = None
         prog_sx = L.sx_program(fns)
         for a in argsets:
             rec = recorder()
@@ -103,9 +114,13 @@ def run(ctx):
                 got = "err"
             other = EV.run_with_events(mod.main, spec, a)
             want = "err" if other.error is not None else "ok (" + " ".join(render_of_events(spec, other.events)) + ")"
+            want2 = None
+            if mod_spec is not None:
+                o2 = EV.run_with_events(mod_spec.main, spec, a, plain=True)
+                want2 = "err" if o2.error is not None else "ok (" + " ".join(render_of_events(spec, o2.events)) + ")"
             case = {"source": src[len(L.HDR):], "args": list(a)}
             lines.append(f"(LANG (visual {table} {prog_sx} main ({' '.join(L.sx_val(x) for x in a)})))")
-            rows.append((case, got, want))
+            rows.append((case, got, want, want2))
             ctx.seen((src, a), "(render_path" in got and ("(global_r" in got or "(local_r" in got or "(top_hat_cz" in got))
             ctx.count("runs")
             ctx.count("runs_ok" if got.startswith("ok") else "runs_err")
@@ -114,11 +129,14 @@ def run(ctx):
         raise HarnessFault("generator degenerate: >30% of generated programs do not compile")
     model = ctx.driver(lines)
     ctx.traces_validated = len(rows)
-    for (case, got, want), m in zip(rows, model):
+    for (case, got, want, want2), m in zip(rows, model):
         if m.startswith("bad") or m == "fuel":
             raise HarnessFault("driver could not run a program")
         if got != m:
             ctx.disagree(case, got[:500], m[:500], "PathVisualizer renderer calls vs model")
+        if want2 is not None and got != want2:
+            ctx.fail(case, "the visualizer does not render the paths the plain interpreter obtains from the same program "
+                           f"compiled with the spec: got={got[:400]} other={want2[:400]}")
         if got != want:
             ctx.fail(case, "renderer calls are not (static traps first, then one call per executed gate / played path in "
                            f"execution order, paths equal to those another executor obtains): got={got[:400]} want={want[:400]}")
